@@ -485,7 +485,6 @@ func dumpConds(f *ssa.Function) {
 	}
 }
 
-
 func diffStrings(a, b []string) []string {
 	in := map[string]bool{}
 	for _, x := range b {
